@@ -173,3 +173,56 @@ Definition validate_reload (fields : option (list N)) (prev : N) : N * bool :=
       else (ts, N.eqb status 1)
   | _ => (prev, false)
   end.
+
+(* ---------- (4) frr-k8s path end to end: UpdateConfig ... Reconcile ----------
+   frrk8s_config_controller.go: UpdateConfig takes the reconciler's lock, stores
+   desiredConfiguration, then sends on configChangedChan STILL HOLDING THE LOCK
+   ([RWrite c]; the send completes in [RNotified], only when the debouncer loop is
+   not inside its own send).  The debouncer ((2b) above) emits the event
+   ([RExpire], [RDeliver]: the channel source enqueues a reconcile request).
+   [RReconcile]: Reconcile takes the lock (not while an UpdateConfig holds it),
+   reads desiredConfiguration and writes it to the API (the API calls are assumed
+   to succeed; a failing Reconcile is requeued by controller-runtime, not modelled). *)
+Inductive rkev := RWrite (c : cfg) | RNotified | RExpire | RDeliver | RReconcile.
+Record rkst := mk_rk { rk_d : dkst; rk_desired : option cfg; rk_api : option cfg;
+                       rk_locked : bool (* an UpdateConfig holds the lock, blocked in its send *);
+                       rk_queue : bool (* a reconcile request is queued *) }.
+Definition rkinit : rkst := mk_rk dkinit None None false false.
+
+Definition rkstep (s : rkst) (e : rkev) : option rkst :=
+  match e with
+  | RWrite c => if rk_locked s then None else Some (mk_rk (rk_d s) (Some c) (rk_api s) true (rk_queue s))
+  | RNotified =>
+      if rk_locked s then
+        match dkstep false (rk_d s) DNotify with
+        | Some d => Some (mk_rk d (rk_desired s) (rk_api s) false (rk_queue s))
+        | None => None
+        end
+      else None
+  | RExpire => match dkstep false (rk_d s) DExpire with
+               | Some d => Some (mk_rk d (rk_desired s) (rk_api s) (rk_locked s) (rk_queue s))
+               | None => None
+               end
+  | RDeliver => match dkstep false (rk_d s) DDeliver with
+                | Some d => Some (mk_rk d (rk_desired s) (rk_api s) (rk_locked s) true)
+                | None => None
+                end
+  | RReconcile => if rk_queue s && negb (rk_locked s)
+                  then Some (mk_rk (rk_d s) (rk_desired s) (rk_desired s) false false) else None
+  end.
+
+Fixpoint rkrun (s : rkst) (l : list rkev) : option rkst :=
+  match l with
+  | [] => Some s
+  | e :: l' => match rkstep s e with Some s' => rkrun s' l' | None => None end
+  end.
+
+Fixpoint last_written (d : option cfg) (l : list rkev) : option cfg :=
+  match l with
+  | [] => d
+  | RWrite c :: l' => last_written (Some c) l'
+  | _ :: l' => last_written d l'
+  end.
+
+Definition rk_quiet (s : rkst) : bool :=
+  negb (rk_locked s) && negb (dk_timer (rk_d s)) && negb (dk_sending (rk_d s)) && negb (rk_queue s).
